@@ -42,6 +42,9 @@ type c08Scenario struct {
 	// OutputMissing: the events output path does not exist (yet) when the daemon
 	// starts; it waits for it before starting any worker. Signals only.
 	OutputMissing bool
+	// Early: the cause strikes right after the pipes were opened, while the
+	// workers are still starting up, instead of in their steady state.
+	Early bool
 }
 
 var c08Causes = []string{
@@ -271,7 +274,12 @@ func c08Run(r *vlib.Run, sc c08Scenario, idx int) (evaluated bool) {
 	}
 	// let the workers reach their steady state (blocked reading the pipes)
 	// before the cause strikes; workload, not verdict
-	time.Sleep(200 * time.Millisecond)
+	if !sc.Early {
+		time.Sleep(200 * time.Millisecond)
+	} else {
+		sig += ":during-start-up"
+		label += "/early"
+	}
 	stalls := int64(0)
 	inflight := 0
 	if sc.Saturated {
@@ -493,6 +501,9 @@ func checkC08(r *vlib.Run) int {
 	for _, c := range []string{"SIGTERM", "SIGINT"} {
 		scs = append(scs, c08Scenario{Cause: c, OutputMissing: true}, c08Scenario{Cause: c, OutputMissing: true, Debug: true})
 	}
+	for _, c := range c08Causes {
+		scs = append(scs, c08Scenario{Cause: c, Early: true})
+	}
 	var idle, sat []int
 	for i, s := range scs {
 		if s.Saturated || s.HTTP {
@@ -509,7 +520,7 @@ func checkC08(r *vlib.Run) int {
 	for i, ok := range done {
 		if ok {
 			evals++
-			dist.Add(fmt.Sprintf("%s|%v|%v|%v|%v|%v", scs[i].Cause, scs[i].Saturated, scs[i].NoWriter, scs[i].Debug, scs[i].HTTP, scs[i].StuckScraper) + fmt.Sprint(scs[i].AuditMetrics, scs[i].OutputMissing))
+			dist.Add(fmt.Sprintf("%s|%v|%v|%v|%v|%v", scs[i].Cause, scs[i].Saturated, scs[i].NoWriter, scs[i].Debug, scs[i].HTTP, scs[i].StuckScraper) + fmt.Sprint(scs[i].AuditMetrics, scs[i].OutputMissing, scs[i].Early))
 		}
 	}
 	r.Set("causes", c08Causes)
@@ -518,7 +529,7 @@ func checkC08(r *vlib.Run) int {
 	r.Assumptions = []string{"'saturated' is observed: the pumping writer's write(2) hit EAGAIN at least five times and the number of lines in flight between pipe and output stopped growing (or passed 10000) before the fault is injected, otherwise the scenario is inconclusive",
 		"'does not exit' is a violation only if the SIGQUIT dump shows main parked in errgroup.Wait and a worker parked; otherwise inconclusive",
 		"signals may end the process with any status; failures must give a non-zero status"}
-	return r.Finish(evals, dist.Len(), "built daemon x failure cause {sshd pipe EOF, audit pipe EOF, either pipe's EOF in the middle of a record, malformed audit line, event write failure via /dev/full, sshd/audit path is a regular file / missing / a directory, SIGTERM, SIGINT} x load {idle with writers attached, idle with the other pipe still waiting for its writer, saturated by a pumping writer} x log level {error, debug}, six causes with the HTTP health/metrics server enabled and three of them with a scrape client that never reads its answers, every cause with -audit-metrics (ticker member of the worker group, 20 ms), both signals while the daemon still waits for its events output file to appear; thorough: x3 and with the -race build; distinct = (cause, load) pairs evaluated")
+	return r.Finish(evals, dist.Len(), "built daemon x failure cause {sshd pipe EOF, audit pipe EOF, either pipe's EOF in the middle of a record, malformed audit line, event write failure via /dev/full, sshd/audit path is a regular file / missing / a directory, SIGTERM, SIGINT} x load {idle with writers attached, idle with the other pipe still waiting for its writer, saturated by a pumping writer} x log level {error, debug}, six causes with the HTTP health/metrics server enabled and three of them with a scrape client that never reads its answers, every cause with -audit-metrics (ticker member of the worker group, 20 ms), both signals while the daemon still waits for its events output file to appear, every cause right after the pipes were opened (workers still starting up); thorough: x3 and with the -race build; distinct = (cause, load) pairs evaluated")
 }
 
 func lastLineOf(s string) string {
